@@ -12,7 +12,7 @@
      B name param seed nin nout | sizes | params | inputs | labels      (all candidate mini-batch results)
      N name param T nin nhid nout | sizes | params | inputs | labels    (ErrorFunction on LinearModel >> LinearModel)
      Z zov thr dim | sizes | labels | preds | weights                   (ZeroOneLoss weighted eval)
-     A invert T | sizes | labels | scores                               (NegativeAUC: a=<q> | a=nan | EXC)
+     A invert T [dim] | sizes | labels | scores (n*dim numbers)         (NegativeAUC: a=<q> | a=nan | EXC)
      S sq ignore dim reuse | lens | labels | preds                      (SquaredLoss<Sequence,Sequence>; EXC = documented exception)
    Lines with real (non-rational) data run the float instantiation of the Section-polymorphic functions for
    ce, cev, huber, abs (L lines); all other real-data lines print "<kind> -". *)
@@ -225,8 +225,10 @@ let handle l =
       Printf.sprintf "Z z=%s" (qs (zow_eval thr (chunk (isec 1) es) (qsec 4)))
     | "A" ->
       let inv = hd.(1) = "1" in
-      let es = List.map2 (fun c s -> (nat_of_int c, s)) (isec 2) (qsec 3) in
-      (match nauc_eval inv (chunk (isec 1) es) with
+      (* optional 4th header field: number of prediction columns (default 1) *)
+      let dim = if Array.length hd > 3 then int_of_string hd.(3) else 1 in
+      let es = List.map2 (fun c s -> (nat_of_int c, s)) (isec 2) (rows dim (qsec 3)) in
+      (match nauc_eval_vec inv (chunk (isec 1) es) with
        | AucExc -> "A EXC"
        | AucNaN -> "A a=nan"
        | AucVal a -> "A a=" ^ qs a)
